@@ -1136,3 +1136,124 @@ theorem split_merge_vec_total (null : α) (sh : Shp) (hc : Consistent sh) (h5 : 
   exact ⟨pieces, r, hp, hr, split_merge_vec_id null sh hc h5 hV2 ks hv hcan pieces hp r hr⟩
 
 end Total
+
+/-! ### C04 for the time axis of a 5-D extension, after the final `_simplify` -/
+
+namespace Total
+variable {α : Type} [DecidableEq α]
+
+/-- `_simplify` only ever moves a key to a classification whose dictionary exists -/
+theorem simplify_moved_base (null : α) (sh : Shp) (c : Cls) (vals : List α) (d : Cls) (out : List α)
+    (h : simplifyK null sh c vals = .ok (.moved d out)) : basePresent sh d = true := by
+  unfold simplifyK at h
+  by_cases hc : c = gconst
+  · subst hc; simp at h; split at h <;> simp at h
+  · simp only [hc, if_false] at h
+    cases hcl : constLoop sh c vals (constTests c) with
+    | error e => simp [hcl] at h
+    | ok res =>
+      cases res with
+      | some pr =>
+        obtain ⟨d', o'⟩ := pr
+        simp [hcl] at h
+        obtain ⟨rfl, rfl⟩ := h
+        exact (constLoop_spec sh c vals _ d' o' hcl).2.1
+      | none =>
+        simp only [hcl] at h
+        cases hrl : repeatLoop sh vals (repeatTests c) with
+        | error e => simp [hrl] at h
+        | ok res2 =>
+          cases res2 with
+          | some pr =>
+            obtain ⟨d', o'⟩ := pr
+            simp [hrl] at h
+            obtain ⟨rfl, rfl⟩ := h
+            exact (repeatLoop_spec sh vals _ d' o' hrl).2.1
+          | none => simp [hrl] at h
+
+/-- **C04 (time axis, 5-D parent, per key):** the piece for time point `idx` is valid for the
+    `(x,y,z,1,V)` shape and reads, at every slice and vector position, what the parent reads at
+    that time point -/
+theorem subsetTime_spec5 (null : α) (sh : Shp) (hc : Consistent sh) (h5 : sh.nd = 5)
+    (hV2 : 2 ≤ sh.V)
+    (ks : KeyState α) (hv : ValidK sh ks) (idx : Nat) (hidx : idx < sh.T)
+    (p : KeyState α) (h : subsetTimeK null sh ks idx = .ok p) :
+    ValidK (timeSubsetShp sh) p ∧
+    ∀ s v, s < sh.S → v < sh.V →
+      lookupKS null (timeSubsetShp sh) p s 0 v = lookupKS null sh ks s idx v := by
+  have hrs : timeSubsetShp sh = { sh with T := 1, hasTime := false } := by
+    have : ¬ sh.nd = 4 := by omega
+    simp [timeSubsetShp, this]
+  have hvecT : sh.hasVector = true := hc.hvec.mpr h5
+  cases ks with
+  | none =>
+    simp [subsetTimeK] at h; subst h
+    exact ⟨trivial, fun _ _ _ _ => rfl⟩
+  | some pr =>
+    obtain ⟨c, vals⟩ := pr
+    unfold subsetTimeK at h
+    by_cases hcg : c = gconst
+    · subst hcg
+      simp only [if_true] at h
+      injection h with h; subst h
+      exact ⟨⟨gconst_valid _, by simpa [mult] using hv.2⟩, fun _ _ _ _ => rfl⟩
+    · simp only [hcg, if_false] at h
+      have hcs := copySampleTime_lookup sh hc (Or.inr h5) (fun _ => hV2) c hcg vals hv idx hidx
+      simp only at hcs
+      obtain ⟨hval, hlk⟩ := hcs
+      by_cases hsimp : (copySampleK sh (timeSubsetShp sh) true idx c vals).2.2 = true
+      · simp only [hsimp, if_true] at h
+        have wfr : WF (timeSubsetShp sh) := by rw [hrs]; exact ⟨hc.hS, by simp, hc.hV⟩
+        have hslr : (timeSubsetShp sh).hasSlice = true := by rw [hrs]; exact hc.hsl
+        have hbase : ∀ d, basePresent (timeSubsetShp sh) d = true →
+            d ∈ validClasses (timeSubsetShp sh) := by
+          intro d hd; rw [hrs] at hd ⊢
+          cases d <;> simp [basePresent] at hd <;> simp [validClasses, h5]
+        simp only [applySimplify] at h
+        cases hsm : simplifyK null (timeSubsetShp sh)
+            (copySampleK sh (timeSubsetShp sh) true idx c vals).1
+            (copySampleK sh (timeSubsetShp sh) true idx c vals).2.1 with
+        | error e => simp [hsm] at h
+        | ok o =>
+          cases o with
+          | unchanged =>
+            simp [hsm] at h; subst h
+            exact ⟨hval, fun s v hs hv' => hlk s v hs hv'⟩
+          | deleted =>
+            simp [hsm] at h; subst h
+            refine ⟨trivial, fun s v hs hv' => ?_⟩
+            unfold simplifyK at hsm
+            by_cases hg : (copySampleK sh (timeSubsetShp sh) true idx c vals).1 = gconst
+            · rw [hg] at hsm
+              simp only [if_true] at hsm
+              split at hsm
+              · rename_i hnull
+                have := hlk s v hs hv'
+                rw [hg, hnull] at this
+                show some null = lookupK sh c vals s idx v
+                rw [← this]; rfl
+              · simp at hsm
+            · simp only [hg, if_false] at hsm
+              split at hsm <;> (try split at hsm) <;> simp at hsm
+          | moved d out =>
+            simp [hsm] at h; subst h
+            -- the time dictionary does not exist in the result: the latent reduction cannot fire
+            have hnb : ¬ ((copySampleK sh (timeSubsetShp sh) true idx c vals).1 = vslices ∧
+                d = tsamples ∧ 1 < (timeSubsetShp sh).V) := by
+              intro ⟨_, hd, _⟩
+              have hb := simplify_moved_base null _ _ _ d out hsm
+              rw [hd, hrs] at hb
+              simp [basePresent] at hb
+            refine ⟨simplify_valid null _ wfr hslr hbase _ _ hval.2 d out hsm hnb, fun s v hs hv' => ?_⟩
+            have := simplify_lookup null _ wfr _ _ hslr hval.2 d out hsm hnb s 0 v
+              (by rw [hrs]; exact hs) (by rw [hrs]; simp) (by rw [hrs]; exact hv')
+            show lookupK (timeSubsetShp sh) d out s 0 v = lookupK sh c vals s idx v
+            rw [this]
+            exact hlk s v hs hv'
+      · have hsimp' : (copySampleK sh (timeSubsetShp sh) true idx c vals).2.2 = false := by
+          simpa using hsimp
+        simp only [hsimp', Bool.false_eq_true, if_false] at h
+        injection h with h; subst h
+        exact ⟨hval, fun s v hs hv' => hlk s v hs hv'⟩
+
+end Total
